@@ -185,7 +185,7 @@ def point(k):
 
 
 def new_log():
-    return {"calls": [], "evals": [], "target": [], "shape_target": [], "radiance": [], "gaunt": [], "tsamp": [], "shape_args": []}
+    return {"calls": [], "evals": [], "target": [], "shape_target": [], "radiance": [], "gaunt": [], "tsamp": [], "shape_args": [], "notified": []}
 
 
 def reset_log(log):
@@ -326,8 +326,10 @@ def run_line_seq(steps, lineshape=None, window=(400.0, 600.0, 4)):
     out, must_populate = [], True
     for k, step in enumerate(steps):
         changed = sp.goto(k)
-        fresh = step_op(inst, step, k, log) or changed or must_populate
+        notified = step_op(inst, step, k, log) or changed
+        fresh = notified or must_populate
         reset_log(log)
+        log["notified"].append(bool(notified))
         spec = Spectrum(*window)
         try:
             out_sp = inst.emission(k, spec)
@@ -369,12 +371,14 @@ def run_total_seq(steps):
                         lambda pl, ad: TotalRadiatedPower(ELEMS[first["elem"]], charge_arg(first["charge"], first.get("charge_form")),
                                                           plasma=pl, atomic_data=ad))
     except ValueError:
-        return [dict(copy_log(log), out="ErrValue", samples=[], fresh=True) for _ in steps]
+        return [dict(copy_log(log), out="ErrValue", samples=[], fresh=True, notified=[False]) for _ in steps]
     out, must_populate = [], True
     for k, case in enumerate(steps):
         changed = sp.goto(k)
-        fresh = step_op(inst, case, k, log) or changed or must_populate
+        notified = step_op(inst, case, k, log) or changed
+        fresh = notified or must_populate
         reset_log(log)
+        log["notified"].append(bool(notified))
         spec = Spectrum(case["minw"], case["maxw"], case["bins"])
         try:
             out_sp = inst.emission(k, spec)
@@ -487,13 +491,15 @@ def run_brems_seq(steps):
         else:
             muted = inst.apply(op)
         fresh = muted or changed or must_populate
+        opcode = 2 if op == "gaunt_user" else 3 if op == "gaunt_none" else 1 if (muted or changed) else 0
         must_populate = False
         reset_log(log)
         spec = Spectrum(case["minw"], case["maxw"], case["bins"])
         out_sp = inst.emission(k, spec)
         o = {"samples": [float(v) for v in out_sp.samples], "gaunt_z": sorted({z for z, _ in log["gaunt"]}),
              "gaunt_te": sorted({t for _, t in log["gaunt"]}), "calls": [list(c) for c in log["calls"]], "fresh": fresh,
-             "gaunt_is_set": inst.model.gaunt_factor is not None}
+             "gaunt_is_set": inst.model.gaunt_factor is not None, "opcode": opcode,
+             "user_at_start": not first["via_provider"]}
         o["rebased"] = second_call(inst, k, case)
         out.append(o)
     return out
@@ -660,6 +666,32 @@ def read_constants(repo):
     if missing:
         raise ValueError("constants.pyx: missing %s" % missing)
     return env
+
+
+def read_source_tables(repo):
+    """small fail-closed readers of literals the model copies from the anchored sources"""
+    out = {}
+    src = open(os.path.join(repo, "cherab", "core", "model", "plasma", "total_radiated_power.pyx")).read()
+    m = re.findall(r"for\s+hyd_isotope\s+in\s+\(([^)]*)\)\s*:", src)
+    if len(m) != 1:
+        raise ValueError("total_radiated_power.pyx: hydrogen isotope loop not found exactly once")
+    names = [n.strip() for n in m[0].split(",") if n.strip()]
+    by_name = {e.name: i for i, e in enumerate(ELEMS)}
+    out["hyd"] = [by_name[n] for n in names]          # KeyError = unknown element: fail closed
+    src = open(os.path.join(repo, "cherab", "core", "atomic", "gaunt.pyx")).read()
+    m = re.findall(r"^DEF\s+EULER_GAMMA\s*=\s*([0-9.eE+-]+)\s*$", src, re.M)
+    if len(m) != 1:
+        raise ValueError("gaunt.pyx: DEF EULER_GAMMA not found exactly once")
+    out["euler_gamma"] = float(m[0])
+    return out
+
+
+def probe_gq_defaults():
+    """the integrator a Bremsstrahlung model gets when none is given (behavioural probe)"""
+    g = Bremsstrahlung().integrator
+    if type(g) is not GaussianQuadrature:
+        raise ValueError("default integrator of Bremsstrahlung is %r" % type(g))
+    return {"min_order": int(g.min_order), "max_order": int(g.max_order), "rtol": float(g.relative_tolerance)}
 
 
 def frac(x):
